@@ -622,7 +622,7 @@ def marking_rules(R, tr, thorough=False):
     [year the era begins, year the era ends] (eras begin and end inside a year), or it is one of the latest rules that
     ended before the era began and no surviving rule started before the era (so the offset in force when the era begins
     comes from it)."""
-    from .aeval import AEval, Raised
+    from .pyeval import PyEval, Raised
     R.rule('R9', 'a rule an era can select is not removed as unused: rules whose years meet the closed year interval of the era, and the '
                  'latest rules ended before it, survive _mark_rules_used_by_zones + _remove_rules_unused (interpreted on small zones)', floor=3)
     mf = tr.fn('Transformer._mark_rules_used_by_zones')
@@ -675,11 +675,17 @@ def marking_rules(R, tr, thorough=False):
             prules = [mk(*x) for x in rs]
             rules_map = {'P': prules, 'Q': [mk(1990, 9999, 4)]}
             try:
-                me = transformer_object(tr, zones_map, rules_map, start_year=START, until_year=UNTIL)
-                ev = AEval(module=tr, intrinsics=QUIET, max_steps=100000)
-                out = ev.call_function('Transformer._mark_rules_used_by_zones', [zones_map, rules_map], recv=me)
+                ev = PyEval(R.cfg, max_steps=200000)
+                init = tr.fn('Transformer.__init__')
+                vals = dict(zones_map=zones_map, rules_map=rules_map, links_map={}, scope='extended', start_year=START, until_year=UNTIL,
+                            until_at_granularity=60, offset_granularity=60, strict=True)
+                for p_ in init.params[1:]:
+                    if p_ not in vals:
+                        raise AnalysisError('%s: Transformer.__init__ has a parameter %s the abstraction does not know' % (init.loc, p_))
+                me = ev.instantiate(tr, 'Transformer', kwargs={p_: vals[p_] for p_ in init.params[1:]})
+                out = ev.call(tr, 'Transformer._mark_rules_used_by_zones', [zones_map, rules_map], recv=me)
                 rm = out[1] if isinstance(out, (tuple, list)) and len(out) == 2 else rules_map
-                kept = ev.call_function('Transformer._remove_rules_unused', [rm], recv=me)
+                kept = ev.call(tr, 'Transformer._remove_rules_unused', [rm], recv=me)
             except Raised as r_:
                 raise AnalysisError('%s: interpretation raised %s' % (mf.loc, r_.what))
             except (KeyError, IndexError, TypeError) as x_:
@@ -772,4 +778,22 @@ SELFTEST = [
     dict(id='early-continue-idiom-silent', file='tools/tzdb/transformer.py',
          find='            if eras:\n                results[name] = eras\n            else:\n                _add_reason(removed_zones, name, "no ZoneEra found")',
          replace='            if not eras:\n                _add_reason(removed_zones, name, "no ZoneEra found")\n                continue\n            results[name] = eras', expect='silent'),
+    # the book-keeping of a rule filter moved behind a context manager (a generator that yields the reason map): quiet when the part
+    # after the yield still merges the reasons, reported when it does not
+    dict(id='reasons-merged-by-a-context-manager-silent', edits=[
+        dict(file='tools/tzdb/transformer.py', find='import datetime\nfrom collections import OrderedDict\n',
+             replace='import datetime\nfrom collections import OrderedDict\nfrom contextlib import contextmanager\n'),
+        dict(file='tools/tzdb/transformer.py', find='    # --------------------------------------------------------------------\n    # Methods related to Zones.\n',
+             replace='    @contextmanager\n    def _removing_policies(self, summary):\n        removed_policies: CommentsCollection = {}\n        yield removed_policies\n        logging.info(summary % len(removed_policies))\n        self._print_removed_map(removed_policies)\n        _merge_reasons(self.all_removed_policies, removed_policies)\n\n    # --------------------------------------------------------------------\n    # Methods related to Zones.\n'),
+        dict(file='tools/tzdb/transformer.py', find='        removed_policies: CommentsCollection = {}\n        for name, rules in rules_map.items():\n            valid = True\n            for rule in rules:\n                letter = rule[\'letter\']\n                if len(letter) > 1:\n                    valid = False\n                    _add_reason(\n                        removed_policies, name,\n                        f"LETTER \'{letter}\' too long")\n                    break\n            if valid:\n                results[name] = rules\n\n        logging.info(\'Removed %s rule policies with long DST letter\' %\n                     len(removed_policies))\n        self._print_removed_map(removed_policies)\n        _merge_reasons(self.all_removed_policies, removed_policies)\n',
+             replace='        with self._removing_policies(\'Removed %s rule policies with long DST letter\') as removed_policies:\n            for name, rules in rules_map.items():\n                valid = True\n                for rule in rules:\n                    letter = rule[\'letter\']\n                    if len(letter) > 1:\n                        valid = False\n                        _add_reason(\n                            removed_policies, name,\n                            f"LETTER \'{letter}\' too long")\n                        break\n                if valid:\n                    results[name] = rules\n')],
+         expect='silent'),
+    dict(id='context-manager-forgets-to-merge-the-reasons', edits=[
+        dict(file='tools/tzdb/transformer.py', find='import datetime\nfrom collections import OrderedDict\n',
+             replace='import datetime\nfrom collections import OrderedDict\nfrom contextlib import contextmanager\n'),
+        dict(file='tools/tzdb/transformer.py', find='    # --------------------------------------------------------------------\n    # Methods related to Zones.\n',
+             replace='    @contextmanager\n    def _removing_policies(self, summary):\n        removed_policies: CommentsCollection = {}\n        yield removed_policies\n        logging.info(summary % len(removed_policies))\n        self._print_removed_map(removed_policies)\n\n    # --------------------------------------------------------------------\n    # Methods related to Zones.\n'),
+        dict(file='tools/tzdb/transformer.py', find='        removed_policies: CommentsCollection = {}\n        for name, rules in rules_map.items():\n            valid = True\n            for rule in rules:\n                letter = rule[\'letter\']\n                if len(letter) > 1:\n                    valid = False\n                    _add_reason(\n                        removed_policies, name,\n                        f"LETTER \'{letter}\' too long")\n                    break\n            if valid:\n                results[name] = rules\n\n        logging.info(\'Removed %s rule policies with long DST letter\' %\n                     len(removed_policies))\n        self._print_removed_map(removed_policies)\n        _merge_reasons(self.all_removed_policies, removed_policies)\n',
+             replace='        with self._removing_policies(\'Removed %s rule policies with long DST letter\') as removed_policies:\n            for name, rules in rules_map.items():\n                valid = True\n                for rule in rules:\n                    letter = rule[\'letter\']\n                    if len(letter) > 1:\n                        valid = False\n                        _add_reason(\n                            removed_policies, name,\n                            f"LETTER \'{letter}\' too long")\n                        break\n                if valid:\n                    results[name] = rules\n')],
+         rule='R10'),
 ]
